@@ -73,6 +73,34 @@ def remote_case(rng):
             "meta": {"kw": 5, "remote": True, "hops": hops}}
 
 
+def ref_sibling_case(rng):
+    """draft-07: a $ref object with a sibling that would make it unsatisfiable (or the `false` schema), at every kind of subschema
+    position; the siblings are ignored, so only the target decides."""
+    target = rng.choice([Obj(), True, Obj([("type", "integer")]), Obj([("minLength", gs.Num("1"))]), False])
+    sib = rng.choice([("not", Obj()), ("not", True), ("type", "null"), ("const", "never"), ("enum", []), ("maxProperties", gs.Num("0")),
+                      ("required", ["zz"]), ("maximum", gs.Num("-100")), ("allOf", [False]), ("additionalProperties", False)])
+    refobj = Obj([("$ref", "#/definitions/t"), sib] if rng.random() < 0.5 else [sib, ("$ref", "#/definitions/t")])
+    pos = rng.choice(["additionalProperties", "items", "additionalItems", "properties", "patternProperties", "contains", "propertyNames",
+                      "dependencies", "if", "allOf", "anyOf", "oneOf", "not", "root"])
+    body = {
+        "additionalProperties": [("additionalProperties", refobj)],
+        "items": [("items", refobj)],
+        "additionalItems": [("items", [True]), ("additionalItems", refobj)],
+        "properties": [("properties", Obj([("a", refobj)]))],
+        "patternProperties": [("patternProperties", Obj([("^a", refobj)]))],
+        "contains": [("contains", refobj)],
+        "propertyNames": [("propertyNames", refobj)],
+        "dependencies": [("dependencies", Obj([("a", refobj)]))],
+        "if": [("if", refobj), ("then", Obj([("required", ["b"])])), ("else", Obj([("required", ["c"])]))],
+        "allOf": [("allOf", [refobj])], "anyOf": [("anyOf", [refobj, False])], "oneOf": [("oneOf", [refobj])],
+        "not": [("not", refobj)], "root": refobj.kvs,
+    }[pos]
+    root = Obj([("$schema", rng.choice(gs.D7_URIS)), ("definitions", Obj([("t", target)]))] + body)
+    insts = [Obj([("a", gs.Num("1"))]), Obj([("a", "s"), ("b", None)]), Obj(), [gs.Num("1"), "x"], [gs.Num("2")], gs.Num("3"), "str", None,
+             Obj([("zz", gs.Num("1")), ("a", gs.Num("2"))]), [], Obj([("c", True)])]
+    return {"op": "validate", "args": {"schema": root, "insts": insts}, "meta": {"kw": 4, "refsib": pos}}
+
+
 def gen(rng, tier, n):
     ops = suite.suite_ops("draft7")
     depth = 3 if tier == "quick" else 4
@@ -80,6 +108,9 @@ def gen(rng, tier, n):
         r = rng.random()
         if r < 0.2:
             ops.append(remote_case(rng))
+            continue
+        if r < 0.33 and r >= 0.27:
+            ops.append(ref_sibling_case(rng))
             continue
         if r < 0.27:
             from .. import gen_refs
